@@ -13,6 +13,23 @@ FLOOR = {'quick': 300, 'thorough': 5000}
 FIELDS = {'a': ('actions', 'action'), 's': ('subjects', 'subject'), 'r': ('resources', 'resource')}
 
 
+class LazyDict(dict):
+    """a dictionary whose attributes are computed on access (membership and item access go through the overridden
+    methods; the underlying dict is empty)"""
+    def __init__(self, backing):
+        super().__init__()
+        self._backing = dict(backing)
+
+    def __contains__(self, k):
+        return k in self._backing
+
+    def __getitem__(self, k):
+        return self._backing[k]
+
+
+TRUTHY_TWINS = {True: [1, 'yes', [0], 2.5, (None,)], False: [0, '', None, [], 0.0]}
+
+
 def elem_ok(e, what, inq):
     """direct restatement of 'this element matches' on the real objects"""
     if type(e) is dict:
@@ -89,6 +106,12 @@ def run(ctx):
         pol, f, what, inq = gen_case(rng)
         try:
             pobj = proto.build_policy(pol)
+            # a user rule may answer with any truthy / falsy object, not only with a bool
+            for e in getattr(pobj, FIELDS[f][0]):
+                for r in ([e] if isinstance(e, proto.ConstRule) else
+                          [x for x in e.values() if isinstance(x, proto.ConstRule)] if type(e) is dict else []):
+                    if type(r.answer) is bool and rng.random() < 0.6:
+                        r.answer = pick(rng, TRUTHY_TWINS[r.answer])
             iobj = proto.build_inquiry(inq)
             what_real = getattr(iobj, FIELDS[f][1])
             line = 'FITS KU %s %s %s %s' % (polcase.pol_line(pol, pobj), f, proto.enc_value(what_real),
@@ -108,7 +131,10 @@ def run(ctx):
             # the same dictionary as a dict subclass that answers look-ups of missing keys (defaultdict / Counter):
             # an attribute it does not contain is still missing
             what = pick(rng, [lambda d: collections.defaultdict(lambda: None, d), lambda d: collections.defaultdict(int, d),
-                              lambda d: collections.defaultdict(str, d), lambda d: collections.Counter(d)])(what)
+                              lambda d: collections.defaultdict(str, d), lambda d: collections.Counter(d),
+                              lambda d: LazyDict(d)])(what)
+            if isinstance(what, LazyDict) and not all(type(e) is dict for e in getattr(pobj, fname)):
+                what = collections.defaultdict(lambda: None, plain)      # whole-value rules compare the dictionary itself
             out.count('dict-subclass-value')
         try:
             a = ch.fits(pobj, fname, what, iobj)
@@ -117,7 +143,7 @@ def run(ctx):
         except Exception as e:
             impl = 'raise'
             strict = True
-        mutated = what is not plain and dict(what) != plain
+        mutated = what is not plain and not isinstance(what, LazyDict) and dict(what) != plain
         what = plain
         elems = getattr(pobj, fname)
         oks = [elem_ok(e, what, iobj) for e in elems]
